@@ -85,7 +85,7 @@ def check(e, env=None) -> Any:
         return r
     if k == "rel":
         a, b = check(e[2], env), check(e[3], env)
-        if top(a) != top(b):
+        if top(a) != top(b) and "dyn" not in (a, b):
             raise IllTyped(e)
         return "b"
     if k == "in":
